@@ -80,7 +80,7 @@ TProcess ==
   /\ LET v    == e.xq
          held == v = x
          ep   == Eps(v, x, y, e.yq)
-     IN /\ x' = v /\ y' = e.yq
+     IN /\ x' = v /\ y' = (IF e.yq = NaNKey THEN y ELSE e.yq)
         /\ lo' = Min2(lo, v) /\ hi' = Max2(hi, v)
         /\ from' = IF held THEN from ELSE y
         /\ k' = IF held THEN k + 1 ELSE 1
@@ -101,7 +101,7 @@ TStretch ==
          \* many steps: the accumulated band (stall of the f32 recursion + DC gain error of the rounded
          \* coefficients), not the one-step rounding
          ep == Eps(v, e.ymin, y, e.ymax) + EpsRes(e.yq)
-     IN /\ x' = x /\ y' = e.yq
+     IN /\ x' = x /\ y' = (IF e.yq = NaNKey THEN y ELSE e.yq)
         /\ UNCHANGED <<lo, hi, from, quiet, cached, eff, pole, fs, nEff>>
         /\ k' = k + e.n
         /\ Advance(
